@@ -49,7 +49,12 @@ FromRef(reg, n, x) ==
          IF ks = {} THEN Irr ELSE RMul(d.lf, R(CHOOSE k \in ks : TRUE))
     ELSE RDiv(RSub(x, reg.units[n].offset), reg.units[n].scale)
 
-\* NonMultiplicativeRegistry._convert (the offset unit is replaced by its reference container)
+\* _add_ref_of_log_or_offset_unit: what stands for the non-multiplicative unit n of the container u once the value is in reference
+\* units.  A logarithmic unit over a dimensional reference (dBm over mW) is swapped for its reference inside the container, so a
+\* compound such as dBm / Hz converts (autoconvert mode); an offset unit, and a logarithmic unit over a pure number, is *replaced* by
+\* its reference container - the companions of a compound are dropped, so C * m or dB / Hz do not convert: they are refused.
+WithRef(reg, n, u) == IF IsLog(reg, n) /\ reg.units[n].ref # Empty THEN Mul(Remove(u, {n}), reg.units[n].ref) ELSE reg.units[n].ref
+\* NonMultiplicativeRegistry._convert
 ConvertNM(reg, ac, x, src, dst) ==
     LET es == Extract(reg, ac, src)  ed == Extract(reg, ac, dst) IN
     IF es[1] = "bad" \/ ed[1] = "bad" THEN DimErr
@@ -58,11 +63,9 @@ ConvertNM(reg, ac, x, src, dst) ==
     ELSE IF DimDecl(reg, src) # DimDecl(reg, dst) THEN DimErr
     ELSE IF es[1] = "one" /\ Deltas(reg, dst) # {} THEN DimErr
     ELSE LET x1   == IF es[1] = "one" THEN ToRef(reg, es[2], x) ELSE x
-             src1 == IF es[1] = "one" THEN reg.units[es[2]].ref ELSE src
+             src1 == IF es[1] = "one" THEN WithRef(reg, es[2], src) ELSE src
          IN IF ed[1] = "one" /\ Deltas(reg, src1) # {} THEN DimErr
-            ELSE LET dst1 == IF ed[1] = "one" THEN reg.units[ed[2]].ref ELSE dst IN
-                 \* the offset unit is *replaced* by its reference container (companions of a compound are dropped):
-                 \* in autoconvert mode a compound such as C * m therefore does not convert - it is refused
+            ELSE LET dst1 == IF ed[1] = "one" THEN WithRef(reg, ed[2], dst) ELSE dst IN
                  IF DimDecl(reg, src1) # DimDecl(reg, dst1) THEN DimErr
                  ELSE LET
                      x2   == RMul(x1, FactorAB(reg, src1, dst1))
